@@ -1,6 +1,7 @@
 /-
   UVerif.Model.Areal — areal<nbits,es,bt>::operator=(float), operator=(double) and to_native as written in
-  include/universal/number/areal/areal_impl.hpp, line by line (uint32 / uint64 arithmetic made explicit as `% 2^32`,
+  include/universal/number/areal/areal_impl.hpp (after the repairs of D13: `exponent >= MAX_EXP`, every NaN payload,
+  top-binade all-ones saturation, normalisation of subnormal sources, left shift for targets wider than the source), line by line (uint32 / uint64 arithmetic made explicit as `% 2^32`,
   `% 2^64`; the limb store `_block[MSU] = bt(bits)` / `copyBits(bits)` as truncation to the blocks that are written).
 -/
 import UVerif.Basic
@@ -52,76 +53,102 @@ def maskShift (c : Cfg) (exponent : Int) : Nat :=
     never produces them for the configurations it runs (checked by the model-vs-implementation comparison). -/
 def shr (x k : Nat) : Nat := x >>> k
 
-/-- the common body of both assignment operators.
-    srcF = 23 | 52 fraction bits, srcBias = 127 | 1023, W = 32 | 64 (width of `bits`). -/
-def assignCore (c : Cfg) (srcF srcBias W : Nat) (subnormalSrcImplemented : Bool)
-    (s : Bool) (raw_exp raw0 : Nat) : Nat :=
-  let fbits := c.fbits
-  let exponent : Int := (raw_exp : Int) - (srcBias : Int)
-  if exponent > c.MAX_EXP then
+/-- `raw <<= k` on a W-bit unsigned -/
+def shl (W x k : Nat) : Nat := (x <<< k) % 2 ^ W
+
+/-- the construction of the target: `bits = s; bits <<= es; bits |= biasedExponent; bits <<= nbits-1-es; bits |= raw;
+    bits &= ~1; bits |= ubit` on a W-bit unsigned, then the limb store -/
+def assemble (c : Cfg) (W : Nat) (s : Bool) (biasedExponent raw : Nat) (ubit : Bool) : Nat :=
+  let bits := if s then 1 else 0
+  let bits := (bits <<< c.es) % 2 ^ W
+  let bits := bits ||| (biasedExponent % 2 ^ W)
+  let bits := (bits <<< (c.nbits - 1 - c.es)) % 2 ^ W
+  let bits := bits ||| raw
+  let bits := bits - bits % 2            -- bits &= ~1
+  let bits := bits ||| (if ubit then 1 else 0)
+  store c W bits
+
+/-- subnormal sources (exponent field 0, fraction ≠ 0) are normalised first:
+    `shift = srcF+1 - find_msb(raw); raw = (raw << shift) & fracMask; exponent = 1 - srcBias - shift`;
+    returns (unbiased exponent, fraction without the hidden bit). -/
+def normalizeSrc (srcF srcBias raw_exp raw : Nat) : Int × Nat :=
+  if raw_exp == 0 then
+    let shift := srcF + 1 - (raw.log2 + 1)          -- find_msb(raw) = log2 raw + 1 for raw ≠ 0
+    (1 - (srcBias : Int) - (shift : Int), (raw <<< shift) % 2 ^ srcF)
+  else ((raw_exp : Int) - (srcBias : Int), raw)
+
+/-- fraction processing of the subnormal-target branch: the hidden bit is made explicit, then
+    `if (shiftRight + adjustment >= 0) { ubit = (mask & raw) != 0; raw >>= shiftRight + adjustment; } else raw <<= -(…)`;
+    returns (raw, ubit) -/
+def subPair (c : Cfg) (srcF W : Nat) (exponent : Int) (raw0 : Nat) : Nat × Bool :=
+  let shiftRight : Int := (srcF : Int) - (c.fbits : Int) - 1
+  let hfMask := 2 ^ (srcF + 1) - 1
+  let raw := raw0 ||| 2 ^ srcF
+  let mask := shr hfMask (maskShift c exponent)
+  let adjustment : Int := -(exponent + subnormalReciprocalShift c.es)
+  let rs : Int := shiftRight + adjustment
+  if rs ≥ 0 then (shr raw rs.toNat, (mask &&& raw) != 0)
+  else (shl W raw (-rs).toNat, false)
+
+/-- fraction processing of the normal-target branch:
+    `if (shiftRight >= 0) { ubit = (mask & raw) != 0; raw >>= shiftRight; } else raw <<= -shiftRight` -/
+def normalPair (c : Cfg) (srcF W : Nat) (raw0 : Nat) : Nat × Bool :=
+  let shiftRight : Int := (srcF : Int) - (c.fbits : Int) - 1
+  let fracMask := 2 ^ srcF - 1
+  let mask := shr fracMask c.fbits
+  if shiftRight ≥ 0 then (shr raw0 shiftRight.toNat, (mask &&& raw0) != 0)
+  else (shl W raw0 (-shiftRight).toNat, false)
+
+/-- the common body of both assignment operators on the normalised source (value (raw0 + 2^srcF)·2^(exponent-srcF)).
+    srcF = 23 | 52 fraction bits, W = 32 | 64 (width of `raw` and `bits`). -/
+def assignCore (c : Cfg) (srcF W : Nat) (s : Bool) (exponent : Int) (raw0 : Nat) : Nat :=
+  if exponent ≥ c.MAX_EXP then
     (if s then maxneg c else maxpos c) ||| 1
   else if exponent < c.MIN_EXP_SUBNORMAL then
     (if s then signBit c else 0) ||| 1
   else
-    let shiftRight : Int := (srcF : Int) - (fbits : Int) - 1
-    let fracMask := 2 ^ srcF - 1
-    let hfMask := 2 ^ (srcF + 1) - 1
-    -- (biasedExponent, raw, ubit)
-    let (biasedExponent, raw, ubit) : Nat × Nat × Bool :=
-      if exponent ≥ c.MIN_EXP_SUBNORMAL && exponent < c.MIN_EXP_NORMAL then
-        if exponent > -(srcBias : Int) then
-          -- normal source, subnormal target: make the hidden bit explicit
-          let raw := raw0 ||| 2 ^ srcF
-          let mask := shr hfMask (maskShift c exponent)
-          let adjustment : Int := -(exponent + subnormalReciprocalShift c.es)
-          if shiftRight > 0 then (0, shr raw (shiftRight + adjustment).toNat, (mask &&& raw) != 0)
-          else (0, raw, false)
-        else
-          -- subnormal source
-          if subnormalSrcImplemented then
-            let mask := shr hfMask (maskShift c exponent)
-            let adjustment : Int := -(exponent + subnormalReciprocalShift c.es)
-            if shiftRight > 0 then (0, shr raw0 (shiftRight + adjustment).toNat, (mask &&& raw0) != 0)
-            else (0, raw0, false)
-          else (0, raw0, false)        -- double: "conversion of subnormal IEEE doubles not implemented yet"
-      else
-        let be := (exponent + c.EXP_BIAS).toNat
-        let mask := shr fracMask fbits
-        if shiftRight > 0 then (be, shr raw0 shiftRight.toNat, (mask &&& raw0) != 0)
-        else (be, raw0, false)
-    -- construct the target
-    let bits := if s then 1 else 0
-    let bits := (bits <<< c.es) % 2 ^ W
-    let bits := bits ||| (biasedExponent % 2 ^ W)
-    let bits := (bits <<< (c.nbits - 1 - c.es)) % 2 ^ W
-    let bits := bits ||| raw
-    let bits := bits - bits % 2            -- bits &= ~1
-    let bits := bits ||| (if ubit then 1 else 0)
-    store c W bits
+    if exponent ≥ c.MIN_EXP_SUBNORMAL && exponent < c.MIN_EXP_NORMAL then
+      -- subnormal target
+      let p := subPair c srcF W exponent raw0
+      assemble c W s 0 p.1 p.2
+    else
+      let be := (exponent + c.EXP_BIAS).toNat
+      let p := normalPair c srcF W raw0
+      -- all exponent bits and all fraction bits set would be the inf / NaN encoding: saturate
+      if exponent == c.MAX_EXP - 1 && p.1 >>> 1 == 2 ^ c.fbits - 1 then
+        (if s then maxneg c else maxpos c) ||| 1
+      else assemble c W s be p.1 p.2
 
 /-- `areal& operator=(float rhs)` on the bit pattern of rhs -/
 def assignF32 (c : Cfg) (bc : Nat) : Nat :=
   let s := bc.testBit 31
   let raw_exp := (bc >>> 23) % 256
   let raw := bc % 2 ^ 23
-  if raw_exp == 0xFF && raw == 1 then setnanSignalling c
-  else if raw_exp == 0xFF && raw == 0x400000 then setnanQuiet c
+  if raw_exp == 0xFF && raw != 0 && raw &&& 0x400000 == 0 then setnanSignalling c
+  else if raw_exp == 0xFF && raw &&& 0x400000 != 0 then setnanQuiet c
   else if raw_exp == 0xFF && raw == 0 then setinf c s
   else if raw_exp == 0 && raw == 0 then (if s then signBit c else 0)      -- rhs == 0.0
-  else assignCore c 23 127 32 true s raw_exp raw
+  else
+    let (exponent, raw) := normalizeSrc 23 127 raw_exp raw
+    assignCore c 23 32 s exponent raw
 
 /-- `areal& operator=(double rhs)` -/
 def assignF64 (c : Cfg) (bc : Nat) : Nat :=
   let s := bc.testBit 63
   let raw_exp := (bc >>> 52) % 2048
   let raw := bc % 2 ^ 52
-  if raw_exp == 0x7FF && raw == 1 then setnanSignalling c
-  else if raw_exp == 0x7FF && raw == 0x8000000000000 then setnanQuiet c
+  if raw_exp == 0x7FF && raw != 0 && raw &&& 0x8000000000000 == 0 then setnanSignalling c
+  else if raw_exp == 0x7FF && raw &&& 0x8000000000000 != 0 then setnanQuiet c
   else if raw_exp == 0x7FF && raw == 0 then setinf c s
   else if raw_exp == 0 && raw == 0 then (if s then signBit c else 0)
-  else assignCore c 52 1023 64 false s raw_exp raw
+  else
+    let (exponent, raw) := normalizeSrc 52 1023 raw_exp raw
+    assignCore c 52 64 s exponent raw
 
-/-! ### to_native<TargetFloat> (areal_impl.hpp:1063-1108), for es ≤ 7 (the shifts are defined) -/
+/-! ### to_native<TargetFloat>.  The factor 2^exponent is written at value level (`pow2Bits`): the code builds it as
+    `TargetFloat(1ull << exponent)`, `1.0f / TargetFloat(1ull << -exponent)` for -64 < exponent < 64 (the lower bound is the
+    repair of the undefined shift for es ≥ 8) and as `ipow(exponent)` in double otherwise — all exact powers of two while
+    2^exponent is a normal number of the format (double: es ≤ 10, float: es ≤ 7; the driver rejects other lines). -/
 
 /-- product of two finite patterns, correctly rounded (hardware multiplication) -/
 def fmul (f : Fmt) (a b : Nat) : Nat :=
